@@ -10,6 +10,7 @@ pub mod base;
 pub mod cache;
 pub mod cfg;
 pub mod control;
+pub mod mirror;
 pub mod router;
 pub mod routing;
 pub mod security;
@@ -43,11 +44,12 @@ pub fn generate(property: &str, tier: &str, seed: u64, idx: u64) -> Spec {
         "C06" => router::c06(&mut rng, thorough, idx),
         "C05" => router::c05(&mut rng, thorough, idx),
         "C19" => router::c19(&mut rng, thorough, idx),
+        "C20" => mirror::c20(&mut rng, thorough, idx),
         "C07" => routing::c07(&mut rng, thorough, idx),
         "C04" => base::c04(&mut rng, thorough, idx),
         "C12" => base::c12(&mut rng, thorough, idx),
         "SELFTEST" => {
-            let props = ["C01", "C02", "C03", "C04", "C12", "C08", "C16", "C07", "C17", "C14", "C18", "C09", "C10", "C11", "C13", "C06", "C05", "C19"];
+            let props = ["C01", "C02", "C03", "C04", "C12", "C08", "C16", "C07", "C17", "C14", "C18", "C09", "C10", "C11", "C13", "C06", "C05", "C19", "C20"];
             let p = props[(idx % props.len() as u64) as usize];
             return generate(p, tier, seed ^ 0x5e1f, idx / props.len() as u64);
         }
